@@ -112,6 +112,21 @@ def model_check(module, cfg, wd, workers=NCPU, timeout=1800, extra=(), xmx='8g',
             'coverage': tlc_coverage(out), 'out': out}
 
 
+def apalache(module, args, wd, timeout=900):
+    """one apalache-mc check run (symbolic, for inductive invariants over unbounded parameters); returns 'ok' / 'violated'; anything else is Broken"""
+    out = f'{wd}/apalache-{abs(hash(tuple(args))) % 10 ** 8}'
+    try:
+        p = subprocess.run(['apalache-mc', 'check', '--out-dir=' + out] + list(args) + [module], capture_output=True, text=True, timeout=timeout, cwd=SPEC)
+    except subprocess.TimeoutExpired:
+        raise Broken(f'apalache-mc timed out after {timeout}s on {module}')
+    finally:
+        shutil.rmtree(out, ignore_errors=True)
+    o = p.stdout + p.stderr
+    if 'EXITCODE: OK' in o: return 'ok'
+    if 'EXITCODE: ERROR (12)' in o: return 'violated'
+    raise Broken(f'apalache-mc failed on {module} {args}:\n' + o[-2000:])
+
+
 def split_lines(path, nparts, wd, prefix, min_lines=2000):
     """split an ndjson file into <= nparts chunk files of whole lines; returns [(file, first_line_no)]"""
     with open(path) as f:
